@@ -13,11 +13,11 @@ open Model Model.Writer Lemmas.WriterTotal Lemmas.WriterKeys
     mode, from EVERY context — whatever `last_column` is (even beyond the line), whatever the other flags: it succeeds (and
     keeps version and `write_item_names`) if and only if `keyPresented key`; otherwise it fails with CIF_DISALLOWED_VALUE — no
     other result code, and the column the table entry starts in never matters. -/
-theorem C02_key_refused_iff (key : Str) (c : Ctx) (h2 : c.isCif1 = false) :
+theorem C02_key_refused_iff (key : Str) (c : Ctx) (h2 : c.isCif1 = false) (hdis : Model.hasDisallowed key = false) :
     ((∃ p, keyStep key c = .ok p) ↔ keyPresented key = true) ∧
     (keyStep key c = .error Gen.ErrCodes.CIF_DISALLOWED_VALUE ↔ keyPresented key = false) ∧
     (∀ o c', keyStep key c = .ok (o, c') → Same c c') := by
-  have T := tot_keyStep key c h2
+  have T := tot_keyStep key c h2 hdis
   obtain ⟨a, b⟩ := T.ok_iff
   refine ⟨a, ⟨fun h => ?_, fun h => b.mpr (by simp [h])⟩, ?_⟩
   · have := b.mp h
@@ -36,17 +36,18 @@ theorem C02_key_step_is_the_loop (kn key : Str) (v : V) (rest : List (Str × Str
   writeEntries_cons kn key v rest c
 
 /-- **C02_total_iff** — `cif_write` in CIF 2.0 mode, every walk order (`WCif`), every writable CIF (`containersOk`: every loop
-    holds a packet; scalar data names of ≥ 2 units and ≤ 2048 characters; numbers with non-empty text — nothing about strings, keys,
+    holds a packet; scalar data names of ≥ 2 units and ≤ 2048 characters; numbers with non-empty text) whose strings, number texts
+    and keys are clean (`containersClean false`: no CR, only characters CIF 2.0 allows — the property's own precondition; nothing about
     columns or lengths):
       * it succeeds IFF every table key the walk meets — at any depth of lists and tables, in any block or save frame — is one
         `write_table` presents (`keyPresented`, a decidable predicate on the key alone);
       * it returns CIF_DISALLOWED_VALUE IFF the walk meets a key with `keyPresented key = false`;
     and these are the only two outcomes (`C02_total`).  `containersKeys cif` lists the keys in the order the walk hands them to
     `write_table` (frames before loops, packets and items in walk order, a key before the keys inside its value). -/
-theorem C02_total_iff (cif : WCif) (hok : containersOk cif) :
+theorem C02_total_iff (cif : WCif) (hok : containersOk cif) (hcl : containersClean false cif) :
     ((∃ out, writeCif 0 cif = .ok out) ↔ ∀ key ∈ containersKeys cif, keyPresented key = true) ∧
     (writeCif 0 cif = .error Gen.ErrCodes.CIF_DISALLOWED_VALUE ↔ ∃ key ∈ containersKeys cif, keyPresented key = false) := by
-  obtain ⟨a, b⟩ := tot_writeCif cif hok
+  obtain ⟨a, b⟩ := tot_writeCif cif hok hcl
   rw [containersKP_keys] at a b
   constructor
   · rw [a, List.all_eq_true]
@@ -65,56 +66,52 @@ theorem C02_total_iff (cif : WCif) (hok : containersOk cif) :
         rw [List.all_eq_true] at h
         rw [h k hk1] at hk2; cases hk2
 
-/-- the keys `write_table` presents are keys the CIF 2.0 syntax and the line limit admit (`keyWritable`: the specification side,
-    written from the grammar): the writer never emits a key it should have refused -/
-theorem C02_presented_key_writable (key : Str) (h : keyPresented key = true) : keyWritable key = true :=
-  keyWritable_of_presented key h
+/-- **C02_refused_key_unwritable** — the keys `write_table` refuses are EXACTLY the keys that cannot be written as a quoted or
+    triple-quoted string with their colon within the line limit (`keyWritable`: the specification side, written from the grammar —
+    no CR; one line with a free kind of quote and `length + 3 ≤ 2048`, or triple-quotable with `length + 7 ≤ 2048`; several lines,
+    none over-long, first line + 3 ≤ 2048, last line + 4 ≤ 2048, triple-quotable).  (Before the repair of F-key-first-line a
+    multi-line key whose first line had exactly 2045 units was refused although writable.) -/
+theorem C02_refused_key_unwritable (key : Str) : keyPresented key = keyWritable key := keyPresented_eq_writable key
 
-/-- FULL: the only keys refused are those that cannot be written as a quoted or triple-quoted string with their colon within
-    the line limit.  FALSE of the current tree (finding F-key-first-line): `C02_cex_key_first_line`. -/
-def C02_refused_key_unwritable_full : Prop := ∀ key : Str, keyPresented key = false → keyWritable key = false
-
-/-- **C02_refused_key_unwritable_partial** — … except the keys of several lines whose first line has exactly `LINE − 3` = 2045
-    units: `cif_analyze_string` asks `first_line < length_limit − 3` where `'''` + 2045 units fill a line exactly. -/
-theorem C02_refused_key_unwritable_partial (key : Str) (h : keyPresented key = false)
-    (hfirst : (Spec.splitLines key).length = 1 ∨ ((Spec.splitLines key).headD []).length + 3 ≠ LINE) :
-    keyWritable key = false := by
-  cases hw : keyWritable key with
-  | false => rfl
-  | true =>
-    have := (keyWritable_not_presented key).mp ⟨hw, h⟩
-    rcases hfirst with h1 | h1
-    · exact absurd h1 this.2.1
-    · exact absurd this.2.2 h1
+/-- the keys `write_table` presents are keys the CIF 2.0 syntax and the line limit admit: the writer never emits a key it should
+    have refused -/
+theorem C02_presented_key_writable (key : Str) (h : keyPresented key = true) : keyWritable key = true := by
+  rw [← C02_refused_key_unwritable]; exact h
 
 namespace C02Total
-/-- a key of two lines, the first of 2045 units: `'''` + first line fill a line exactly -/
+/-- a key of two lines, the first of 2045 units: the opening triple delimiter + first line fill a line exactly -/
 def keyFirst2045 : Str := List.replicate 2045 107 ++ [10, 120]
 /-- one block, one scalar item holding a table with the one entry `key : ?` -/
 def tableOf (key : Str) : WCif := C02Doc.oneItem (.tbl [(key, key, .unk)])
 end C02Total
 
 set_option maxRecDepth 100000 in
-/-- **C02_cex_key_first_line** (finding F-key-first-line, replay corpus/writeval/findings.req): the two-line key whose first
-    line has 2045 units is writable — `'''` + 2045 units = 2048 — but `write_table` refuses it … -/
-theorem C02_cex_key_first_line :
-    keyWritable C02Total.keyFirst2045 = true ∧ keyPresented C02Total.keyFirst2045 = false := by
+/-- regression instance of F-key-first-line (replay corpus/writeval/regressions.req): the two-line key whose first line has 2045
+    units — delimiter + 2045 units = 2048 — is presented now … -/
+theorem C02_key_first_line_accepted : keyPresented C02Total.keyFirst2045 = true := by
   decide +kernel
 
-/-- … so `cif_write` returns CIF_DISALLOWED_VALUE for a table holding it (through `C02_total_iff`, not by evaluation), and
-    `C02_refused_key_unwritable_full` is false -/
-theorem C02_cex_key_first_line_refused :
-    writeCif 0 (C02Total.tableOf C02Total.keyFirst2045) = .error Gen.ErrCodes.CIF_DISALLOWED_VALUE
-    ∧ ¬ C02_refused_key_unwritable_full := by
-  constructor
-  · refine (C02_total_iff _ ?_).2.mpr ⟨C02Total.keyFirst2045, ?_, C02_cex_key_first_line.2⟩
-    · simp [C02Total.tableOf, C02Doc.oneItem, containersOk, containerOk, loopOk, itemsOk, isScalars, valueOk, entriesOk, nameOk,
-        Writer.countChar32, LINE]
-    · simp [C02Total.tableOf, C02Doc.oneItem, containersKeys, containerKeys, loopsKeys, packetsKeys, itemsKeys, valueKeys, entriesKeys]
-  · intro h
-    have := h _ C02_cex_key_first_line.2
-    rw [C02_cex_key_first_line.1] at this
-    cases this
+set_option maxRecDepth 100000 in
+/-- … so `cif_write` writes a table holding it (through `C02_total_iff`, not by evaluation) -/
+theorem C02_key_first_line_written : ∃ out, writeCif 0 (C02Total.tableOf C02Total.keyFirst2045) = .ok out := by
+  refine (C02_total_iff _ ?_ ?_).1.mpr ?_
+  · simp [C02Total.tableOf, C02Doc.oneItem, containersOk, containerOk, loopOk, itemsOk, isScalars, valueOk, entriesOk, nameOk,
+      Writer.countChar32, LINE]
+  · refine ⟨⟨trivial, ?_⟩, trivial⟩
+    intro l hl p hp nv hnv
+    simp only [C02Total.tableOf, C02Doc.oneItem, List.mem_singleton] at hl
+    subst hl
+    simp only [List.mem_singleton] at hp
+    subst hp
+    simp only [List.mem_singleton] at hnv
+    subst hnv
+    simp only [valueClean, entriesClean, Bool.and_true]
+    decide +kernel
+  · intro key hk
+    simp only [C02Total.tableOf, C02Doc.oneItem, containersKeys, containerKeys, loopsKeys, packetsKeys, itemsKeys, valueKeys, entriesKeys,
+      List.append_nil, List.nil_append, List.mem_singleton] at hk
+    subst hk
+    exact C02_key_first_line_accepted
 
 set_option maxRecDepth 100000 in
 /-- the boundary on one line: a key of 2045 units without `'` is presented (`'…'` ends in column 2047, the colon in 2048), one of
@@ -123,7 +120,7 @@ theorem C02_key_boundary :
     keyPresented (List.replicate 2045 107) = true ∧ keyPresented (List.replicate 2046 107) = false
     ∧ keyPresented ([39, 34] ++ List.replicate 2039 107) = true ∧ keyPresented ([39, 34] ++ List.replicate 2040 107) = false
     ∧ keyPresented [] = true ∧ keyPresented [39, 34, 39, 39, 39] = true ∧ keyPresented [39, 39, 39, 34, 34, 34] = false
-    ∧ keyPresented (a!"a\nb") = true ∧ keyPresented (a!"'''\n\"\"\"") = false := by
+    ∧ keyPresented (a!"a\nb") = true ∧ keyPresented (a!"'''\n\"\"\"") = false ∧ keyPresented (a!"a\rb") = false := by
   decide +kernel
 
 -- non-vacuity of `C02_total_iff`: a writable CIF whose table keys are all presented (it is written) …
